@@ -348,6 +348,112 @@ func init() {
 		}
 		intDef("histoBarWidth", "HistoWriter.writeLine: width passed to BarWrite", v, ok)
 
+		// ---- the formatter: every call of the renderers' Formatter field with its printed arguments, the
+		// statements of the closure FromExpression returns, the guard of the reduce table loop, the width
+		// measure of the sparkline header
+		strList := func(lean, doc string, l []string, ok bool) {
+			if ok && len(l) > 0 {
+				fmt.Fprintf(&sb, "/-- %s -/\ndef %s : List String := %s\n\n", doc, lean, leanStrList(l))
+			} else {
+				sb.WriteString(untranslatable(lean))
+			}
+		}
+		fmtCalls := func(file string, fns ...string) ([]string, bool) {
+			var out []string
+			for _, fn := range fns {
+				fd := c.Func(file, fn)
+				if fd == nil {
+					return nil, false
+				}
+				for _, name := range []string{"s.Formatter", "s.formatter"} {
+					for _, args := range c20CallArgs(fd, name) {
+						var ps []string
+						for _, a := range args {
+							ps = append(ps, c.Print(a))
+						}
+						out = append(out, strings.Join(ps, ", "))
+					}
+				}
+			}
+			return out, true
+		}
+		l, ok2 := fmtCalls(rend+"histoWriter.go", "HistoWriter.writeLine")
+		strList("histoFormatCalls", "HistoWriter.writeLine: arguments of every Formatter call", l, ok2)
+		l, ok2 = fmtCalls(rend+"bargraph.go", "BarGraph.writeBarGrouped", "BarGraph.writeBarStacked")
+		strList("barsFormatCalls", "BarGraph.writeBarGrouped / writeBarStacked: arguments of every Formatter call", l, ok2)
+		l, ok2 = fmtCalls(rend+"datatable.go", "DataTable.WriteTable")
+		strList("tableFormatCalls", "DataTable.WriteTable: arguments of every formatter call", l, ok2)
+		l, ok2 = fmtCalls(rend+"heatmap.go", "Heatmap.UpdateMinMax")
+		strList("heatFormatCalls", "Heatmap.UpdateMinMax: arguments of every Formatter call", l, ok2)
+		l, ok2 = fmtCalls(rend+"spark.go", "Spark.WriteTable")
+		strList("sparkFormatCalls", "Spark.WriteTable: arguments of every Formatter call", l, ok2)
+
+		// the closure returned by termformat.FromExpression: its statements, printed
+		{
+			const tf = "pkg/multiterm/termformat/expression.go"
+			c.Fingerprint(tf, "FromExpression")
+			c.Fingerprint(tf, "expandCompileExpression")
+			c.Fingerprint(tf, "formatExpressionContext.GetMatch")
+			c.Fingerprint(tf, "formatExpressionContext.GetKey")
+			var stmts, outer []string
+			okc := false
+			if fd := c.Func(tf, "FromExpression"); fd != nil && fd.Body != nil {
+				for _, st := range fd.Body.List {
+					if rs, ok := st.(*ast.ReturnStmt); ok && len(rs.Results) > 0 {
+						if fl, ok := rs.Results[0].(*ast.FuncLit); ok {
+							okc = true
+							for _, x := range fl.Body.List {
+								stmts = append(stmts, c.Print(x))
+							}
+							continue
+						}
+					}
+					if _, ok := st.(*ast.IfStmt); ok {
+						continue
+					}
+					outer = append(outer, c.Print(st))
+				}
+			}
+			strList("fromExpressionClosure", "termformat.FromExpression: the statements of the returned closure", stmts, okc)
+			strList("fromExpressionState", "termformat.FromExpression: the statements before the closure (what it can capture), error checks aside", outer, okc)
+		}
+
+		// cmd/reduce.go: conditions that mention GroupColCount (the table switch and the guard of the parts loop)
+		{
+			const red = "cmd/reduce.go"
+			c.Fingerprint(red, "reduceFunction")
+			var cs []string
+			fd := c.Func(red, "reduceFunction")
+			if fd != nil {
+				ast.Inspect(fd, func(n ast.Node) bool {
+					if is, ok := n.(*ast.IfStmt); ok {
+						if p := c.Print(is.Cond); strings.Contains(p, "GroupColCount") {
+							cs = append(cs, p)
+						}
+					}
+					return true
+				})
+			}
+			strList("reduceGroupGuards", "reduceFunction: the `if` conditions that mention GroupColCount, in order", cs, fd != nil)
+		}
+
+		// Spark.WriteTable: how the header measures the first and last column name
+		{
+			var rhs []string
+			fd := c.Func(rend+"spark.go", "Spark.WriteTable")
+			if fd != nil {
+				ast.Inspect(fd, func(n ast.Node) bool {
+					if as, ok := n.(*ast.AssignStmt); ok && len(as.Lhs) == 1 && len(as.Rhs) == 1 {
+						if id, ok := as.Lhs[0].(*ast.Ident); ok && id.Name == "dots" && as.Tok == token.DEFINE {
+							rhs = append(rhs, c.Print(as.Rhs[0]))
+						}
+					}
+					return true
+				})
+			}
+			strList("sparkHeaderDots", "Spark.WriteTable: `dots := …`", rhs, fd != nil)
+		}
+
 		sb.WriteString("end Rare.Gen.C14\n")
 		return sb.String()
 	})
